@@ -244,7 +244,20 @@ func execC16(c Case) string {
 		}
 		h1, h2 := t.Hash(), t.Hash()
 		t2 := bchutil.NewTx(mtx)
-		return "EXT " + hx(want[:]) + " RES " + hx(h1[:]) + " " + b2s(h1 == h2) + " " + itoa(t.Index()) + " " + hx(t2.Hash()[:]) + " " + itoa(t2.Index())
+		base := "EXT " + hx(want[:]) + " RES " + hx(h1[:]) + " " + b2s(h1 == h2) + " " + itoa(t.Index()) + " " + hx(t2.Hash()[:]) + " " + itoa(t2.Index())
+		// index bookkeeping is independent of the hash memo and of the wrapped message (Model/TxCache.lean)
+		m0 := t2.MsgTx()
+		t2.SetIndex(7)
+		i1 := t2.Index()
+		h3 := t2.Hash()
+		t2.SetIndex(bchutil.TxIndexUnknown)
+		t3, err := bchutil.NewTxFromReader(bytes.NewReader(append(buf.Bytes(), unhx(a[1])...)))
+		if err != nil {
+			return base + " readererr"
+		}
+		t3.SetIndex(3)
+		return base + " " + itoa(i1) + " " + itoa(t2.Index()) + " " + b2s(h3 == t2.Hash() && *h3 == want) + " " + b2s(t2.MsgTx() == m0 && m0 == mtx) + " " +
+			itoa(t3.Index()) + " " + b2s(*t3.Hash() == want)
 	}
 	panic("harness: op")
 }
